@@ -122,8 +122,13 @@ def build(ctx, rnd, L, M):
                 for x in drift.get(pn, []):
                     cases.append(ds.Case(key, None, False, _mg.put(r[1], off, w, x), "layout_drift"))
     for c in cases:
-        if c.tname == "Response" and c.cc is None:
+        # (one response in seven keeps NO command code - the default of Binary.marshal: seed C06m turned the missing-layout error of
+        # a successful response without command code into a TypeError)
+        if c.tname == "Response" and c.cc is None and rnd.random() > 1 / 7:
             c.cc = rnd.choice(ccs)
+    # the shortest successful / failed responses, with and without sessions, without command code
+    for hx in ("80010000000a00000000", "80020000000a00000000", "80010000000a00000101", "80010000000e0000000000000000", "8001000000090000000000"):
+        cases.append(ds.Case("Response", None, False, bytes.fromhex(hx), "rsp_no_cc"))
     return cases
 
 
